@@ -111,10 +111,13 @@ def pkgsOf (secs : List Sec) : List (List Char × List Char) :=
   secs.flatMap fun sec => if sourceNames.contains sec.name then sec.specs.filterMap specPkg else []
 
 def parse (bytes : List Char) : Outcome (List (List Char × List Char)) :=
-  let (ls, _) := scan bytes
+  let (ls, tl) := scan bytes
   match gemSections ls none [] with
   | none => .err
-  | some secs => match pkgsOfGo secs with
+  | some secs =>
+    -- `scanner.Err()` behind the loop: a line beyond the token limit fails the file
+    if tl then .err else
+    match pkgsOfGo secs with
     | none => .panic
     | some ps => .ok ps
 
